@@ -1,0 +1,89 @@
+package sigor
+
+import (
+	"github.com/bronlabs/errs-go/errs"
+
+	"github.com/bronlabs/bron-crypto/pkg/base/serde"
+	"github.com/bronlabs/bron-crypto/pkg/base/utils"
+	"github.com/bronlabs/bron-crypto/pkg/proofs/sigma"
+)
+
+// The composed commitments and responses are the deserialisation trust boundary of a proof:
+// Bytes and Verify dereference every branch, so a branch that is CBOR null (or missing) must be
+// refused while decoding. The wire format is the default one of the underlying slice / struct.
+
+// UnmarshalCBOR deserialises an OR-composed commitment and rejects nil branches.
+func (a *Commitment[A]) UnmarshalCBOR(data []byte) error {
+	branches, err := serde.UnmarshalCBOR[[]A](data)
+	if err != nil {
+		return errs.Wrap(err).WithMessage("cannot unmarshal commitment")
+	}
+	for i, b := range branches {
+		if utils.IsNil(b) {
+			return ErrInvalidArgument.WithMessage("commitment of branch %d cannot be nil", i)
+		}
+	}
+	*a = branches
+	return nil
+}
+
+type responseDTO[Z sigma.Response] struct {
+	E [][]byte
+	Z []Z
+}
+
+// UnmarshalCBOR deserialises an OR-composed response and rejects nil branch responses.
+func (z *Response[Z]) UnmarshalCBOR(data []byte) error {
+	dto, err := serde.UnmarshalCBOR[*responseDTO[Z]](data)
+	if err != nil {
+		return errs.Wrap(err).WithMessage("cannot unmarshal response")
+	}
+	if dto == nil {
+		return ErrInvalidArgument.WithMessage("response cannot be nil")
+	}
+	for i, b := range dto.Z {
+		if utils.IsNil(b) {
+			return ErrInvalidArgument.WithMessage("response of branch %d cannot be nil", i)
+		}
+	}
+	z.E, z.Z = dto.E, dto.Z
+	return nil
+}
+
+type commitmentCartesianDTO[A0, A1 sigma.Commitment] struct {
+	A0 A0
+	A1 A1
+}
+
+// UnmarshalCBOR deserialises a binary OR-composed commitment and rejects nil branches.
+func (a *CommitmentCartesian[A0, A1]) UnmarshalCBOR(data []byte) error {
+	dto, err := serde.UnmarshalCBOR[*commitmentCartesianDTO[A0, A1]](data)
+	if err != nil {
+		return errs.Wrap(err).WithMessage("cannot unmarshal commitment")
+	}
+	if dto == nil || utils.IsNil(dto.A0) || utils.IsNil(dto.A1) {
+		return ErrInvalidArgument.WithMessage("branch commitments cannot be nil")
+	}
+	a.A0, a.A1 = dto.A0, dto.A1
+	return nil
+}
+
+type responseCartesianDTO[Z0, Z1 sigma.Response] struct {
+	E0 []byte
+	E1 []byte
+	Z0 Z0
+	Z1 Z1
+}
+
+// UnmarshalCBOR deserialises a binary OR-composed response and rejects nil branch responses.
+func (z *ResponseCartesian[Z0, Z1]) UnmarshalCBOR(data []byte) error {
+	dto, err := serde.UnmarshalCBOR[*responseCartesianDTO[Z0, Z1]](data)
+	if err != nil {
+		return errs.Wrap(err).WithMessage("cannot unmarshal response")
+	}
+	if dto == nil || utils.IsNil(dto.Z0) || utils.IsNil(dto.Z1) {
+		return ErrInvalidArgument.WithMessage("branch responses cannot be nil")
+	}
+	z.E0, z.E1, z.Z0, z.Z1 = dto.E0, dto.E1, dto.Z0, dto.Z1
+	return nil
+}
